@@ -20,9 +20,9 @@ Rec == ndJsonDeserialize(IOEnv.TRACE)
 FiltersFile == IOEnv.FILTERS
 F == IF FiltersFile = "" THEN <<>> ELSE JsonDeserialize(FiltersFile)
 
-VARIABLES l, cur, acc, ok
+VARIABLES l, cur, acc, rmv, ok
 
-tvars == <<l, cur, acc, ok>>
+tvars == <<l, cur, acc, rmv, ok>>
 
 (* observed projection -> abstract state record *)
 Valid(st) == st.open = 1 /\ Len(st.delAddr) = NA /\ Len(st.ix) = 9
@@ -89,6 +89,9 @@ V_C17(pst, r) == LET post == Abs(r.st)  n == Cardinality(post.retr)  ix == r.st.
 
 V_C18(pst, r) == LET pre == Abs(pst)  post == Abs(r.st)  c == [k |-> r.k, a |-> r.a] IN
          (IF C18(pre, c, r.res, post) THEN {} ELSE {"RemoveExact"})
+    (* an event removed earlier in this history (rmv) is accepted again when resubmitted, subject to the  *)
+    (* usual rules: no refusal reason of the specification applies => the store succeeds                  *)
+    \cup (IF r.k = "store" /\ r.a \in rmv /\ Reasons(pre, Ev(r.a)) = {} /\ r.res # "ok" THEN {"ResubmitRefused"} ELSE {})
     \cup (IF r.k \in {"remove", "vanish"} /\ pst.extra # r.st.extra THEN {"ExtraTouched"} ELSE {})
 
 (* C15: references handed out by the living store object stay valid and unchanged.  rbase = the  *)
@@ -140,6 +143,7 @@ Report(v, r) == IF v = {} THEN TRUE
 Init == /\ l = 1
         /\ cur = [st |-> [open |-> 0], q |-> <<>>]
         /\ acc = {}
+        /\ rmv = {}
         /\ ok = TRUE
 
 (* A reopen / rebuild that does not return a usable store is C16's business: the other judges  *)
@@ -151,6 +155,9 @@ Step == /\ l <= Len(Rec)
         /\ LET r == Rec[l] IN
              /\ acc' = (IF r.k = "reset" THEN {}
                          ELSE IF ok /\ Valid(r.st) THEN AccNext(acc, [k |-> r.k, a |-> r.a], r.res) ELSE acc)
+             /\ rmv' = (IF r.k = "reset" THEN {}
+                         ELSE IF ok /\ Valid(r.st) /\ r.k \in {"remove", "vanish"}
+                              THEN rmv \cup (ToSet(cur.st.retr) \ ToSet(r.st.retr)) ELSE rmv)
              /\ ok' = (IF r.k = "reset" THEN Valid(r.st) ELSE ok /\ Valid(r.st) /\ ~Skip(r))
              /\ (IF r.k # "reset" /\ ok /\ ~Skip(r)
                  THEN (IF Valid(r.st) THEN Report(Viol(cur.st, cur.q, r), r) ELSE Report(Unusable(r), r))
